@@ -43,6 +43,10 @@ func main() {
 	replay := fs.String("replay", "", "replay file (json with key case)")
 	par := fs.Int("par", 48, "cases run in parallel")
 	fs.Parse(os.Args[2:])
+	if os.Args[1] == "metacall" {
+		runMetaCall(startNode(), *n, *out)
+		return
+	}
 	if os.Args[1] != "run" {
 		fmt.Fprintln(os.Stderr, "unknown subcommand")
 		os.Exit(2)
